@@ -1,6 +1,6 @@
 //! C08 — run-time errors are detected, classified, and leave the interpreter usable.
 use crate::ast::*;
-use crate::faults::{fault_form, prelude, probes, CONTEXTS, KINDS};
+use crate::faults::{fault_form, prelude, probes, CONTEXTS_C08, KINDS};
 use crate::gen::{Gen, GenCfg};
 use crate::progcheck::{compare, obs_text, program_text, run_sut, Cmp};
 use crate::runner::{Chooser, Ctx, Report};
@@ -26,8 +26,22 @@ pub fn fault_program(ch: &mut Chooser, kind: &'static str, context: &'static str
         g.gen_program()
     };
     let cut = ch.below(valid.len() + 1);
-    forms.extend(valid[..cut].iter().cloned());
     let ff = fault_form(ch, kind, context);
+    // a definition the fault needs goes somewhere before it, among the valid forms
+    let pre_at = ch.below(cut + 1);
+    for (i, f) in valid[..cut].iter().enumerate() {
+        if i == pre_at {
+            if let Some(p) = &ff.pre {
+                forms.push(p.clone());
+            }
+        }
+        forms.push(f.clone());
+    }
+    if pre_at >= cut {
+        if let Some(p) = &ff.pre {
+            forms.push(p.clone());
+        }
+    }
     let fault_index = forms.len();
     forms.push(ff.form);
     forms.extend(valid[cut..].iter().cloned());
@@ -60,23 +74,106 @@ pub fn judge(fp: &FaultProgram) -> Report {
     rep
 }
 
+/// the faulting operation sits in a procedure exported by a user library; the program may define a variable with the
+/// name the library procedure finds unbound
+pub fn user_library_case(ch: &mut Chooser) -> Report {
+    use crate::checks::c13;
+    use crate::progcheck::compare_machine;
+    let kind = *ch.pick(&KINDS);
+    let lam = |fixed: &[&str], body: Vec<Expr>| {
+        Expr::Lambda(Formals { fixed: fixed.iter().map(|s| s.to_string()).collect(), rest: None }, Box::new(Body { defs: vec![], exprs: body }))
+    };
+    let free = "nowhere-bound";
+    let fault = match kind {
+        "non-procedure" => Expr::App(Box::new(Expr::Marked(Box::new(Expr::Int(5)))), vec![var("a")]),
+        "arity" => Expr::App(Box::new(lam(&["p", "q"], vec![var("p")])), vec![var("a")]),
+        "unbound-read" => Expr::Marked(Box::new(var(free))),
+        "unbound-set" => Expr::Set(free.into(), Box::new(Expr::Int(1))),
+        "wrong-type" => app("car", vec![var("a")]),
+        "vector-index" => app("vector-ref", vec![app("vector", vec![Expr::Int(1), Expr::Int(2)]), Expr::Int(2)]),
+        "literal-mutation" => app("vector-set!", vec![Expr::Quote(Datum::Vector(vec![Datum::Int(1), Datum::Int(2)])), Expr::Int(0), var("a")]),
+        _ => app("/", vec![var("a"), Expr::Int(0)]),
+    };
+    let body = if ch.chance(1, 2) { fault } else { app("+", vec![Expr::Int(1), fault]) };
+    let def = |n: &str, fixed: &[&str], body: Vec<Expr>| Form::Define(Def { name: n.into(), value: lam(fixed, body), sugar: true });
+    let lib = LibDef {
+        name: "flt lib".into(),
+        imports: vec![ImportSpec::plain("scheme base")],
+        exports: vec![("lib-fault".into(), "lib-fault".into()), ("lib-ok".into(), "lib-ok".into())],
+        body: vec![def("lib-ok", &["x"], vec![app("+", vec![var("x"), Expr::Int(1)])]), def("lib-fault", &["a"], vec![body])],
+    };
+    let mut program = vec![Form::Import(vec![ImportSpec::plain("scheme base"), ImportSpec::plain("flt lib")])];
+    program.push(Form::Define(Def { name: "wn".into(), value: Expr::Int(0), sugar: false }));
+    let homonym = ch.chance(2, 3);
+    let homonym_first = ch.chance(1, 2);
+    let hdef = Form::Define(Def { name: free.into(), value: Expr::Int(100), sugar: false });
+    if homonym && homonym_first {
+        program.push(hdef.clone());
+    }
+    program.push(Form::Expr(app("lib-ok", vec![Expr::Int(1)])));
+    if homonym && !homonym_first {
+        program.push(hdef);
+    }
+    let context = *ch.pick(&["direct", "non-tail", "tail", "apply"]);
+    let call = match context {
+        "direct" => app("lib-fault", vec![Expr::Int(1)]),
+        "non-tail" => app("+", vec![Expr::Int(1), app("lib-fault", vec![Expr::Int(1)])]),
+        "tail" => Expr::App(Box::new(lam(&[], vec![app("lib-fault", vec![Expr::Int(1)])])), vec![]),
+        _ => Expr::Apply(Box::new(var("lib-fault")), vec![], Box::new(Expr::Quote(Datum::List(vec![Datum::Int(1)], None)))),
+    };
+    let fault_index = program.len();
+    if ch.chance(1, 2) {
+        let seq = vec![Expr::Set("wn".into(), Box::new(app("+", vec![var("wn"), Expr::Int(1)]))), call, Expr::Set("wn".into(), Box::new(Expr::Int(100)))];
+        program.push(Form::Expr(Expr::App(Box::new(lam(&[], seq)), vec![])));
+    } else {
+        program.push(Form::Expr(call));
+    }
+    program.push(Form::Expr(var("wn")));
+    if homonym {
+        program.push(Form::Expr(var(free)));
+    }
+    program.push(Form::Expr(app("lib-ok", vec![Expr::Int(2)])));
+    let case = c13::Case { libs: vec![lib], program, labels: vec![], as_files: ch.chance(1, 4) };
+    let mut rep = Report::new(format!("{}\n;; program\n{}", case.libs[0].render(), case.program.iter().map(render_form).collect::<Vec<_>>().join("\n")));
+    rep.label(format!("kind:{}", kind));
+    rep.label(format!("context:{}", context));
+    if homonym {
+        rep.label("program-defines-the-name-the-library-finds-unbound");
+    }
+    rep.nontrivial = true;
+    let obs = c13::run_case(&case);
+    rep.note = obs_text(&obs);
+    match compare_machine(&case.program, &obs, c13::model_machine(&case, false)) {
+        Cmp::Pass => {}
+        Cmp::Skip(w) => rep.skipped = Some(w.split(':').next().unwrap_or("").to_string()),
+        Cmp::Fail { form, sig, detail } => {
+            let sig = if form == fault_index { format!("{}:{}:user-library", sig, kind) } else { format!("{}:user-library:form-{}", sig, if form > fault_index { "after-fault" } else { "before-fault" }) };
+            rep.fail(sig, format!("form {}: {}", form, detail));
+        }
+    }
+    rep
+}
+
 pub fn run(ctx: &Ctx) {
     ctx.set_rule(
         "valid random programs (core and derived forms) with one injected faulting form: 8 fault kinds (non-procedure \
          call, arity against fixed/rest formals and builtins, unbound read, unbound set!, wrong-typed builtin argument, \
-         vector index out of range incl. negative, mutation of a literal vector, exact division by zero) x 5 calling \
+         vector index out of range incl. negative, mutation of a literal vector, exact division by zero) x 6 calling \
          contexts (direct, non-tail inside a procedure, tail call, through apply, from a library procedure: map for-each \
-         fold-left fold-right) x position; effects (set!, vector-set!, ticks) before the fault and effects that must not \
+         fold-left fold-right, deferred: inside a procedure defined by an earlier form and called later) x position; effects (set!, vector-set!, ticks) before the fault and effects that must not \
          happen after it; probes afterwards. Oracle: reference evaluator: error kind at the faulting form, tick trace up to \
-         the fault, all later forms. Every kind x context skeleton is covered exhaustively with 40 random embeddings each. \
+         the fault, all later forms. Additionally the same 8 kinds inside a procedure exported by a user library (registered source or .sld \
+         file), called directly / in operand position / as a tail call / through apply, with and without a program variable \
+         of the name the library procedure finds unbound (oracle: reference module system). Every kind x context skeleton is covered exhaustively with 40 random embeddings each. \
          Non-trivial = context other than direct, or effects before the fault that a later form observes.",
     );
-    let per = ctx.tier.pick(40, 400);
-    let n = (KINDS.len() * CONTEXTS.len()) as u64;
+    ctx.random("user-library", ctx.tier.pick(600, 4_000), 60, user_library_case);
+    let per = ctx.tier.pick(80, 400);
+    let n = (KINDS.len() * CONTEXTS_C08.len()) as u64;
     let depth = ctx.tier.pick(3, 5);
     // every skeleton, `per` random embeddings each: the skeleton index is taken from the case number
     for (ki, kind) in KINDS.iter().enumerate() {
-        for (ci, context) in CONTEXTS.iter().enumerate() {
+        for (ci, context) in CONTEXTS_C08.iter().enumerate() {
             let sub = format!("{}@{}", kind, context);
             let _ = (ki, ci, n);
             ctx.random(&sub, per, 500, |ch: &mut Chooser| judge(&fault_program(ch, kind, context, depth)));
